@@ -20,7 +20,7 @@ ASSUMPTIONS = ["tolerance 1e-6 relative, 5e-3 where the speed vanishes inside th
                "no-scipy configuration is run on fewer cases and mostly at scales <= 1e2 (the fallback needs seconds per call at 1e6)"]
 CONFIGS = ['scipy', 'noscipy']
 BUDGET = {'quick': {'scipy': 6000, 'noscipy': 480}, 'thorough': {'scipy': 150000, 'noscipy': 6000}}
-REQUIRED = ['kind:Q', 'kind:C', 'kind:A', 'kind:L', 'class:collinear', 'class:foldback', 'speed_zero_in_interval', 'path']
+REQUIRED = ['kind:Q', 'kind:C', 'kind:A', 'kind:L', 'class:collinear', 'class:foldback', 'speed_zero_in_interval', 'path', 'path_edited_after_queries']
 CASE_TIMEOUT = 120
 TIME_LIMIT = {'quick': 280, 'thorough': 2400}
 
@@ -40,7 +40,7 @@ def strategy(tier, config):
         if what == 'path':
             specs = draw(gen.chain_specs(min_size=2, max_size=4, scale=draw(sc.filter(lambda v: 1.0 <= v <= 1e4)), unequal=True,
                                          zero_len_prob=8, break_prob=draw(st.sampled_from([0, 20]))))
-            return {'what': 'path', 'segs': specs}
+            return {'what': 'path', 'segs': specs, 'edit': draw(st.integers(0, 7))}
         if draw(st.integers(0, 3)) == 0:
             a = draw(gen.arc_center_form(scale_strategy=sc))
             spec, tag = a['spec'], 'arc'
@@ -281,3 +281,52 @@ def check_path(case, ctx):
             ctx.check(float(seg.length()) == 0.0 or abs(float(seg.length())) <= 64 * EPS * size, 'path/zero_length_segment', 'zero-length %s has length %r' % (spec[0], seg.length()))
             continue
         _check_interval(ctx, spec, seg, 0.0, 1.0, gen.spec_size([spec]), 'full')
+    _check_edited(case, ctx, path, size)
+
+
+def _check_edited(case, ctx, path, size):
+    """the same Path object, whose caches (and those of its segments) are filled by now, is edited through its own
+    interface; the path and its reversed copy must report the sum of the lengths of the segments they now hold"""
+    from svgpathtools import Path, Line, Arc
+    e = case.get('edit', 0)
+    z = complex(size * 1.3, -size * 0.7)
+    if e in (0, 1):
+        if isinstance(path[-1], Arc):
+            return
+        path.end = path.end + z
+        how = 'end assigned'
+    elif e in (2, 3):
+        if isinstance(path[0], Arc):
+            return
+        path.start = path.start - z
+        how = 'start assigned'
+    elif e == 4:
+        path[-1] = Line(path[-1].start, path[-1].end + z)
+        how = 'last segment replaced'
+    elif e == 5:
+        path.append(Line(path.end, path.end + z))
+        how = 'segment appended'
+    elif e == 6:
+        del path[0]
+        how = 'first segment deleted'
+    else:
+        path.insert(1, Line(path[0].end, path[1].start + z))
+        how = 'segment inserted'
+    ctx.count('path_edited_after_queries')
+    fresh = [gen.build_seg(gen.seg_spec_of(sg)) for sg in path]
+    want = math.fsum(float(sg.length()) for sg in fresh)
+    # a reversed Arc is a newly derived arc (its centre is recomputed from the end points): equal to C04's accuracy only
+    rel = 2e-6 if any(isinstance(sg, Arc) for sg in path) else 1e-9
+    if e % 2 == 1:
+        # the reversed copy is asked first (it may not inherit what was cached before the edit)
+        rev = ctx.lib('reversed', path.reversed)
+        got = float(ctx.lib('Path.length', rev.length))
+        ctx.check(abs(got - want) <= rel * want + 1e-300, 'path/edited/reversed', 'after queries, %s, reversed(): length()=%r, the segments sum to %r' % (how, got, want))
+        for a, b in zip(rev, reversed(fresh)):
+            la, lb = float(a.length()), float(b.length())
+            ctx.check(abs(la - lb) <= (2e-6 if isinstance(a, Arc) else 1e-9) * lb + 1e-12 * want, 'path/edited/reversed_segment', 'after queries, %s, reversed(): segment %r reports length %r, a fresh one %r' % (how, a, la, lb))
+    got = float(ctx.lib('Path.length', path.length))
+    ctx.check(abs(got - want) <= 1e-9 * want + 1e-300, 'path/edited', 'after queries, %s: length()=%r, the segments sum to %r' % (how, got, want))
+    for a, b in zip(path, fresh):
+        la, lb = float(a.length()), float(b.length())
+        ctx.check(abs(la - lb) <= 1e-9 * lb + 1e-12 * want, 'path/edited/segment', 'after queries, %s: segment %r reports length %r, a fresh one %r' % (how, a, la, lb))
